@@ -6,6 +6,7 @@ S=${1:-1}
 OUT=seeded/RESULTS.s$S.txt; : > $OUT.tmp
 for d in seeded/C*/; do
   id=$(basename $d); prop=${id%-*}
+  cw=$(sed -n 's/.*"check_with": *"\(C[0-9][0-9]\)".*/\1/p' $d/meta.json 2>/dev/null | head -1); [ -n "$cw" ] && prop=$cw
   if grep -q '"retired"' $d/meta.json 2>/dev/null; then echo "$id RETIRED" >> $OUT.tmp; continue; fi
   r=$(tools/mutcheck.sh $d/patch.diff $prop quick $S | grep -E "^(VIOLATION|OK|INCONCLUSIVE|PATCH)" | head -1 | sed 's/replay=.*//' )
   echo "$id $r" >> $OUT.tmp
